@@ -30,6 +30,11 @@ type Sink struct {
 	Fail        *Failure
 	FailedCalls int
 	Accepted    []byte
+	// RejectOver > 0: a destination with a size limit (a datagram socket, a syslog line): it notes what it was offered
+	// and refuses payloads longer than this with an error. RejectEvery > 0: it refuses every n-th payload.
+	RejectOver  int
+	RejectEvery int
+	Rejected    int
 }
 
 // Failure describes a destination that fails for a while: a full disk that is cleaned up, a connection with a write
@@ -97,7 +102,15 @@ func (s *Sink) Write(p []byte) (int, error) {
 	if s.Fail != nil {
 		s.Accepted = append(s.Accepted, p...)
 	}
+	nth := len(s.Writes)
+	reject := (s.RejectOver > 0 && len(p) > s.RejectOver) || (s.RejectEvery > 0 && nth%s.RejectEvery == 0)
+	if reject {
+		s.Rejected++
+	}
 	s.mu.Unlock()
+	if reject {
+		return 0, errors.New("destination: message too long")
+	}
 	return len(p), nil
 }
 
